@@ -131,6 +131,9 @@ func i1Build(r *rng, dns bool) *i1Scenario {
 	if r.chance(1, 5) {
 		nLines = 1 + r.n(45)
 	}
+	if r.chance(1, 30) {
+		nLines = nLog(r, 46, 130) // MANY lines (the driver parses every line of every op: kept rare)
+	}
 	ids := append([]int{}, i1ListIDs...)
 	shuffle(r, ids)
 	names := subset(r, poolDomains, 5)
@@ -298,7 +301,7 @@ func i1GenChain(r *rng, n int, w *bufio.Writer) {
 		engine := urlfilter.NewNetworkEngine(sc.storage)
 		c01 := &c01Scenario{storage: sc.storage, engine: engine, nets: sc.nets, texts: sc.texts}
 		ls := sc.wlists()
-		for j := 0; j < 5 && i < n; j, i = j+1, i+1 {
+		for j := 0; j < nOpsFor(sc, 5) && i < n; j, i = j+1, i+1 {
 			q := c01Request(r, c01)
 			ans := guardStr(func() string { return bSortedTextSet(texts(engine.MatchAll(q))) })
 			addrs, prefixes, rewrites, shortcuts := sc.oracles(q.Hostname)
@@ -325,7 +328,7 @@ func i1GenDNSChain(r *rng, n int, w *bufio.Writer) {
 				}
 			}
 		}
-		for j := 0; j < 5 && i < n; j, i = j+1, i+1 {
+		for j := 0; j < nOpsFor(sc, 5) && i < n; j, i = j+1, i+1 {
 			d := genDNSRequest(r, sc.all)
 			switch r.n(8) {
 			case 0, 1, 2, 3:
